@@ -178,6 +178,16 @@ theorem field_site :
     ∧ Gen.ForEach.fieldIterTry = ["value = value.next()"]
     ∧ Gen.ForEach.fieldIterHandler = [("StopIteration", "DataGenError")] := by decide
 
+/-- The state key of a call site is the identity of its parsed object (`str(id(self))`): two
+    `StructuredValue`s are two keys even when they come from the same source line (a macro
+    included twice is parsed twice; two flow-style blocks on one line are two objects).  This is
+    the injectivity hypothesis of `Props.C17.site_keyed_iter_kth`; a key made of file, line and
+    function name breaks this lemma (and `shared_key_interferes` says what then happens). -/
+theorem call_site_key_is_object_identity :
+    Gen.ForEach.callSiteKey = "str(id(self))"
+    ∧ Gen.ForEach.callSiteKeyUse = "context.unique_context_identifier = self.unique_context_identifier"
+    ∧ Gen.ForEach.formulaKey = ["str(id(self))", "old_context_identifier"] := by decide
+
 /-! #### update mode -/
 
 /-- one non-repeating linear CSV iterator over the input file, created once, returned by every
